@@ -77,7 +77,14 @@ class Ctx:
     def build(self):
         t = time.time()
         env = {"CARGO_NET_OFFLINE": "true"}
-        r = run(["cargo", "build", "--release", "--offline"], cwd=HARNESS, env=env, timeout=1800)
+        cmd = ["cargo", "build", "--release", "--offline"]
+        alt = os.environ.get("VERIF_REPO")
+        if alt:
+            # development aid only (background runs against a snapshot of the repository while /repo is being
+            # patched for seeded changes): the registered commands never set it and always build /repo itself
+            cmd += ["--config", 'paths=["%s"]' % alt]
+            log(f"[build] NOTE: servlin taken from {alt} instead of /repo (VERIF_REPO is set)")
+        r = run(cmd, cwd=HARNESS, env=env, timeout=1800)
         if r.returncode != 0:
             tail = "\n".join(r.stdout.splitlines()[-40:])
             raise ToolError("harness build failed (servlin no longer compiles with the harness?)\n" + tail)
